@@ -111,7 +111,10 @@ def run_case(case, ctx):
     if ptyped:
         # the same parameter values as numpy scalars (from a parameter grid held in an array / DataFrame)
         ctx.count("numpy_typed_parameters")
-        d = (ADWIN if cls == "ADWIN" else ADWINAccuracy)(**gen.numpyfy(kw))
+        try:
+            d = (ADWIN if cls == "ADWIN" else ADWINAccuracy)(**gen.numpyfy(kw))
+        except (ValueError, TypeError):  # a constructor may insist on plain Python types
+            ctx.count("numpy_typed_parameters_refused_by_constructor")
     for i, x in enumerate(xs):
         if i in resets:
             d.reset()
